@@ -69,7 +69,7 @@ func c12Exec(op string) string {
 		note = "NILMAP NewMap returned a nil Map (the empty projection is an empty Map)"
 	}
 	// the JSON wrappers of NewMap fail exactly when NewMap fails, and return its Map
-	if note == "" {
+	if note == "" && !strings.Contains(op, "#M:") { // (JSON text does not carry Go container types)
 		if jtxt, jerr := mxj.Map(m).Json(); jerr == nil {
 			w1, e1 := j2x.JsonNewJson(jtxt, pairs...)
 			_, e2 := j2x.JsonNewXml(jtxt, pairs...)
@@ -264,6 +264,11 @@ func c12Gen(r *Rng, n int) []string {
 			default:
 				pairs = append(pairs, old+":"+nk)
 			}
+		}
+		if r.P(12) {
+			// some sub-documents attached as values of Go type mxj.Map (not maps for the walkers; the
+			// receiver must stay untouched whatever is projected and wherever it is inserted)
+			m = retype(m, r.Next(), "M", 0).(map[string]interface{})
 		}
 		ops = append(ops, fmt.Sprintf("newmap %s %s", enc(m), encStrList(pairs)))
 	}
